@@ -160,14 +160,15 @@ pub fn enga_profile(property: &str, tier: Tier) -> Option<Profile> {
         }
         "C27" => {
             only(&mut p, &[
-                (AddObj, 10), (RemoveObj, 2), (Touch, 4), (AddChild, 6),
-                (AspaChange, 2), (RsyncFail, 3), (RrdpFail, 3), (TaFault, 2),
-                (MftStale, 1),
+                (AddObj, 10), (RemoveObj, 6), (Touch, 4), (AddChild, 4),
+                (AspaChange, 3), (RsyncFail, 2), (RrdpFail, 2), (TaFault, 1),
+                (MftStale, 1), (BigAspa, 1),
             ]);
+            p.gen.rrdp_pct = 80;
             p.corrupt_local = true;
             p.corrupt_rounds = if tier == Tier::Thorough { 12 } else { 5 };
             p.big_jumps = false;
-            p.steps = 2;
+            p.steps = 3;
         }
         "store-fault" => {
             only(&mut p, &[
